@@ -140,6 +140,9 @@ def check_cache_files(truth, fs):
     return probs
 
 
+BUDGET_S = 420
+
+
 def history_configs(tier):
     """(layout, [(vars, n_its, rl, split_per_it), ...])"""
     out = []
@@ -196,8 +199,13 @@ def run_history(args):
         finally:
             restore()
         return probs
+    # quick: exhaustive.  thorough: the histories with 6-7 symbolic iterations have more paths than fit (measured: not done in 20 min);
+    # they are explored depth-first for BUDGET_S seconds and reported as truncated (held on the paths explored)
     try:
         for c, probs in explore(run, pre=[], backend='inproc', ints=names, decide_timeout=5, max_paths=50000):
+            if tier == 'thorough' and time.time() - t0 > BUDGET_S:
+                res['truncated'] = True
+                break
             res['paths'] += 1
             res['queries'] += c.decision_queries
             res['solver_seconds'] = res.get('solver_seconds', 0.0) + c.decision_seconds
@@ -251,7 +259,8 @@ def main(report, tier, seed, workers, calibrate=False):
     report.bounds = dict(history_length='2-3 read_data calls from an empty cache', iterations_per_call='<= 2 (quick) / 3 (thorough), '
                          'symbolic unbounded integers (coincidences between calls explored by forking)',
                          variable_lists=VAR_CHOICES, layouts=['grouped', 'ungrouped'], levels='rl in {0,1}',
-                         restarts='one (restart interplay: C11)', outside=['concurrent readers', 'partially written cache files',
+                         restarts='one (restart interplay: C11)', thorough_budget=f'histories with more than 5 symbolic iterations: depth-first for {BUDGET_S} s '
+                         'each, reported as truncated with the number of paths explored (quick tier: every history exhaustive)', outside=['concurrent readers', 'partially written cache files',
                                                                            'decoding of ET HDF5 files (C11)'])
     report.assumptions += ['ground truth for (variable, iteration, level) is an opaque tag produced by the stubbed leaf reader']
     report.stubs += ['reading.read_ET_group_or_var -> ground-truth tags', 'reading.iterations / get_content -> one restart, fixed catalogue',
@@ -271,8 +280,12 @@ def main(report, tier, seed, workers, calibrate=False):
             report.inconc(r['name'], r['inconclusive'])
         if r['bad']:
             verdict = 'sat'
-        report.record(r['name'], verdict, r['seconds'], backend='z3py-inproc', sha=f"{r['paths']}p{r['queries']}q:{r['idx']}",
-                      group=r['name'].split(':')[0] + ' layout', detail=dict(paths=r['paths'], queries=r['queries']))
+        report.record(r['name'] + (' [truncated: depth-first for %d s]' % BUDGET_S if r.get('truncated') else ''), verdict, r['seconds'],
+                      backend='z3py-inproc', sha=f"{r['paths']}p{r['queries']}q:{r['idx']}",
+                      group=r['name'].split(':')[0] + ' layout' + (' (truncated explorations)' if r.get('truncated') else ''),
+                      detail=dict(paths=r['paths'], queries=r['queries'], truncated=bool(r.get('truncated'))))
+        if r.get('truncated'):
+            report.extra.setdefault('truncated_histories', []).append(dict(history=r['name'], paths_explored=r['paths']))
         solver.STATS.queries += r['queries']
         solver.STATS.seconds += r.get('solver_seconds', 0.0)
         solver.STATS.by_backend['z3py-inproc'] = solver.STATS.by_backend.get('z3py-inproc', 0) + r['queries']
